@@ -117,6 +117,9 @@ pub trait Prop {
     }
 }
 
+/// offset of the enumerated cases in the case numbering shared with the driver
+pub const FIXED_BASE: u64 = 1_000_000_000;
+
 /// candidates of a delta-debugging step over a vector: remove aligned chunks, big ones first
 pub fn chunk_removals<T: Clone>(v: &[T], per_size: usize) -> Vec<Vec<T>> {
     let n = v.len();
@@ -255,9 +258,24 @@ pub fn run_prop<P: Prop>(p: &P, o: &RunOpts) -> Value {
             }
         }
     }
+    // enumerated case i is known to the driver as case index FIXED_BASE + i (status file, --dump-index)
+    if let Some(di) = o.dump_index {
+        if di >= FIXED_BASE {
+            if let Some(case) = p.fixed_cases(o.tier).into_iter().nth((di - FIXED_BASE) as usize) {
+                std::fs::write(o.dump_to.as_ref().unwrap(), case_file(p.id(), &o.build, "", &case)).unwrap();
+            }
+            std::process::exit(0);
+        }
+    }
     if fixed_failure.is_none() {
     if o.shard == 0 && o.dump_index.is_none() && (o.build != "asan" || p.fixed_in_asan()) {
         for case in p.fixed_cases(o.tier) {
+            if let Some(f) = status_file.as_mut() {
+                use std::io::Seek;
+                let _ = f.seek(std::io::SeekFrom::Start(0));
+                let _ = write!(f, "{:>12}", FIXED_BASE + fixed_run);
+                let _ = f.flush();
+            }
             let mut ctx = Ctx { build: o.build.clone(), thorough: o.tier == Tier::Thorough, ..Ctx::default() };
             let r = catch(|| p.run(&case, &mut ctx));
             fixed_run += 1;
